@@ -228,9 +228,11 @@ TEXT["C12"] = {
             "are regenerated from the sources on every run into a ledger that maps each to its theorem or to 'runtime' (a "
             "new, removed or edited assertion breaks the ledger theorem). What no executable model can exhibit - use-after-"
             "free, double free, uninitialised reads, misalignment, leaks - is covered only by the tie: iter (incl. moved-"
-            "from / self-moved / repeated clear), iterc (reuse after error, repeated free), store, print, count, calc and "
-            "cli streams all execute the real code built with ASan + UBSan + ENABLE_ASSERT; an abort is a violation whose "
-            "replay is the bisected operation.",
+            "from / self-moved / repeated clear), iterc (reuse after error, repeated free), store, print, calc, wheel and "
+            "cross streams (quick) plus count, cli, segment, nth and multi (thorough) all execute the real code built with "
+            "ASan + UBSan + ENABLE_ASSERT; an abort is a violation whose replay is the bisected operation. (Every other "
+            "property's check runs its own streams on the same instrumented build, so the count/cli/segment inputs are "
+            "swept on every change as well.)",
     "design_ref": "DESIGN.md section 8 C12",
     "note": "81 of 90 assertions and all allocator-level memory safety are checked at run time by sanitizers on the explored "
             "inputs, not proved. " + _IGEN,
